@@ -18,7 +18,8 @@
      retry_checks_direct : whether doRetry returns without sending when a local reply became pending during the retry interval
      retry_refinalizes : whether doRetry runs the route's FinalizeRequestHeaders again
      timers_reset_stream : whether the per-try / global timer callbacks reset the upstream stream themselves
-     hijack_clears_body : whether sendHijackReply (no body) drops a response body stored earlier *)
+     hijack_clears_body : whether sendHijackReply (no body) drops a response body stored earlier
+     retry_clears_reuse / setupretry_clears_reuse : whether doRetry / the !endStream branch of setupRetry clear reuseBuffer *)
 From Coq Require Import List ZArith Bool Arith Lia.
 From RecordUpdate Require Import RecordSet.
 Import ListNotations RecordSetNotations.
@@ -42,7 +43,7 @@ Inductive route := RouteNone | RouteDirect (code : Z) (body : bool) | RouteNoClu
 
 Record srcp := { loop_bound : nat; min_budget : nat; reset_guarded : bool; direct_clears_again : bool; direct_cancels_retry : bool; direct_resets_upstream : bool;
   put_resets_cursor : bool; retry_checks_direct : bool; retry_refinalizes : bool; timers_reset_stream : bool; hijack_clears_body : bool;
-  reason_code : reason -> Z }.
+  retry_clears_reuse : bool; setupretry_clears_reuse : bool; reason_code : reason -> Z }.
 
 Record cfg := {
   c_oneway : bool; c_data : bool; c_trailers : bool;
@@ -60,7 +61,8 @@ Record cfg := {
    c_pool; c_delay>.
 #[export] Instance eta_srcp : Settable _ := settable! Build_srcp
   <loop_bound; min_budget; reset_guarded; direct_clears_again; direct_cancels_retry; direct_resets_upstream; put_resets_cursor; retry_checks_direct; retry_refinalizes;
-   timers_reset_stream; hijack_clears_body; reason_code>.
+   timers_reset_stream; hijack_clears_body; retry_clears_reuse;
+   setupretry_clears_reuse; reason_code>.
 
 Inductive rkind := KUp | KHijack | KDirect.
 Record resp := { r_kind : rkind; r_code : Z; r_data : bool; r_trailers : bool;
@@ -95,6 +97,10 @@ Record st := {
   has_upreq : bool; up_sender : bool; up_alive : bool; nnew : nat; cur : nat;
   rsp : option resp; route_matched : bool;
   rcursor : nat; scursor : nat; fcalls : list nat; scalls : list nat; delayed : list phase;
+  reuse : bool;         (* reuseBuffer: the pooled per-request objects may be given back when the stream is cleaned *)
+  gave : bool;          (* giveStream did give them back *)
+  abandoned : bool;     (* some attempt's stream was reset (by the peer or locally) without ever having been answered: a reply
+                           that was already under way can still reach that attempt's listener *)
   nfin : nat;           (* how many times the route's FinalizeRequestHeaders ran on the request *)
   rc : Z;
   (* ghost flags (never read by the transitions): which of the listed defect patterns occurred *)
@@ -107,7 +113,7 @@ Record st := {
 #[export] Instance eta_st : Settable _ := settable! Build_st
   <ph; outer; wdone; sleeping; woken; received; cleaned; up_reset; down_reset; direct; resp_started; recv_done; req_sent;
    process_done; setup_retry; again; rreason; notify; try_armed; global_armed; retry; reserved; has_upreq; up_sender; up_alive;
-   nnew; cur; rsp; route_matched; rcursor; scursor; fcalls; scalls; delayed; nfin; rc; global_ever; x_loop; x_upf; x_nog>.
+   nnew; cur; rsp; route_matched; rcursor; scursor; fcalls; scalls; delayed; reuse; gave; abandoned; nfin; rc; global_ever; x_loop; x_upf; x_nog>.
 
 Definition init_st (rc0 : Z) : st :=
   {| ph := PInit; outer := 0; wdone := false; sleeping := false; woken := false;
@@ -116,7 +122,7 @@ Definition init_st (rc0 : Z) : st :=
      setup_retry := false; again := PInit; rreason := RsEmpty; notify := false;
      try_armed := None; global_armed := false; retry := None; reserved := false;
      has_upreq := false; up_sender := false; up_alive := false; nnew := 0; cur := 0;
-     rsp := None; route_matched := false; rcursor := 0; scursor := 0; fcalls := []; scalls := []; delayed := []; nfin := 0; rc := rc0;
+     rsp := None; route_matched := false; rcursor := 0; scursor := 0; fcalls := []; scalls := []; delayed := []; reuse := true; gave := false; abandoned := false; nfin := 0; rc := rc0;
      global_ever := false; x_loop := false; x_upf := false; x_nog := false |}.
 
 (* The filter chain object of a finished stream goes back to a pool (streamfilter.PutStreamFilterChain) and is handed to a later
@@ -204,7 +210,7 @@ Definition rs_retry (code : option Z) (why : reason) (s : st) : st * list out * 
 
 (* upstreamRequest.resetStream() *)
 Definition upreq_reset_stream : A :=
-  when up_sender (fun s => (s <| up_alive := false |>, [OUpReset (cur s)])).
+  when up_sender (fun s => (s <| up_alive := false |> <| abandoned := abandoned s || up_alive s |>, [OUpReset (cur s)])).
 
 (* downStream.cleanUp() *)
 Definition clean_up : A :=
@@ -217,7 +223,9 @@ Definition clean_stream : A :=
     (upd (fun s => s <| cleaned := true |>) ;;
      when (fun s => has_upreq s && negb (process_done s) && negb (c_oneway c))
           (upd (fun s => s <| process_done := true |>) ;; upreq_reset_stream) ;;
-     clean_up ;; emit (OGauge (-1)) ;; emit OLog ;; emit ODestroy).
+     clean_up ;; emit (OGauge (-1)) ;; emit OLog ;; emit ODestroy ;;
+     (* giveStream *)
+     upd (fun s => s <| gave := reuse s && negb (up_reset s) && negb (down_reset s) |>)).
 
 (* sendHijackReply (body = false) / sendHijackReplyWithBody: new headers; the data buffer is replaced by the body, or - without
    body - dropped (code in the tree) or LEFT AS IT IS (switch off) *)
@@ -226,9 +234,9 @@ Definition hijack (code : Z) (body : bool) : A :=
          let keep := negb body && negb (hijack_clears_body src) in
          let d := if keep then match rsp s with Some r => r_data r | None => false end else body in
          let o := if keep then match rsp s with Some r => r_body r | None => KHijack end else KHijack in
-         s <| rsp := Some {| r_kind := KHijack; r_code := code; r_data := d; r_trailers := false; r_body := o |} |> <| direct := true |>).
+         s <| rsp := Some {| r_kind := KHijack; r_code := code; r_data := d; r_trailers := false; r_body := o |} |> <| direct := true |> <| reuse := false |>).
 Definition direct_response (code : Z) : A :=
-  upd (fun s => s <| rsp := Some {| r_kind := KDirect; r_code := code; r_data := true; r_trailers := false; r_body := KDirect |} |> <| direct := true |>).
+  upd (fun s => s <| rsp := Some {| r_kind := KDirect; r_code := code; r_data := true; r_trailers := false; r_body := KDirect |} |> <| direct := true |> <| reuse := false |>).
 
 (* upstreamRequest.OnResetStream(reason) *)
 Definition on_up_reset (why : reason) : A :=
@@ -247,7 +255,7 @@ Definition ds_reset_stream : A :=
 (* downStream.setupRetry(endStream) *)
 Definition setup_retry_act (e : bool) : A :=
   upd (fun s => s <| setup_retry := true |>) ;;
-  (if e then ret else upreq_reset_stream) ;;
+  (if e then ret else (if setupretry_clears_reuse src then upd (fun s => s <| reuse := false |>) else ret) ;; upreq_reset_stream) ;;
   upd (fun s => s <| try_armed := None |> <| received := false |>).
 
 (* downStream.onUpstreamReset(reason) *)
@@ -323,7 +331,7 @@ Definition verdict_at (l : list verdict) (n : nat) : verdict := nth n l VContinu
 Definition apply_verdict (p : nat) (f : rfilter) (v : verdict) : A :=
   match v with
   | VContinue | VStop => ret
-  | VTerm => clean_stream
+  | VTerm => upd (fun s => s <| reuse := false |>) ;; clean_stream
   | VHijack | VHijackCont => hijack (f_code f) false
   | VDirect => direct_response (f_code f)
   | VReMatch => if (p =? 1)%nat then upd (fun s => s <| again := PMatchRoute |>) else ret
@@ -358,7 +366,7 @@ Fixpoint run_send_from (l : list sfilter) (i : nat) : A :=
       let v := verdict_at (sf_verdicts f) n in
       let '(s1, o1) := (upd (fun s => s <| scalls := incr_nth (scalls s) i |>) ;; emit (OFilterSend i v) ;;
                         match v with
-                        | VTerm => clean_stream
+                        | VTerm => upd (fun s => s <| reuse := false |>) ;; clean_stream
                         | VHijack => hijack (sf_code f) false
                         | VDirect => direct_response (sf_code f)
                         | _ => ret
@@ -380,7 +388,8 @@ Definition up_append_headers (e : bool) : A :=
        let k := nnew s in
        let s1 := s <| nnew := S k |> <| cur := k |> in
        match pool_at k with
-       | PoolOk => (s1 <| up_sender := true |> <| up_alive := true |>, [OUpNew k PoolOk; OUpHdr k e (nfin s)])
+       | PoolOk => (* a one-way request has no response: its client stream is finished once the request is written *)
+                   (s1 <| up_sender := true |> <| up_alive := negb (c_oneway c) |>, [OUpNew k PoolOk; OUpHdr k e (nfin s)])
        | PoolOverflow => let '(s2, o2) := on_up_reset RsOverflow s1 in (s2, OUpNew k PoolOverflow :: o2)
        | PoolConnFail => let '(s2, o2) := on_up_reset RsConnFailed s1 in (s2, OUpNew k PoolConnFail :: o2)
        end).
@@ -442,10 +451,13 @@ Definition do_retry_send : A :=
     setup_per_req_timeout ;;
     upd (fun s => s <| req_sent := true |> <| recv_done := true |>).
 
-Definition do_retry : A := if retry_checks_direct src then ite direct ret do_retry_send else do_retry_send.
+Definition do_retry : A :=
+  (if retry_clears_reuse src then upd (fun s => s <| reuse := false |>) else ret) ;;
+  (if retry_checks_direct src then ite direct ret do_retry_send else do_retry_send).
 
 (* ----- response path ----- *)
-Definition end_stream : A := clean_stream.
+Definition end_stream : A :=
+  when (fun s => negb (c_oneway c) && negb (recv_done s)) (upd (fun s => s <| reuse := false |>)) ;; clean_stream.
 Definition recv_finished : A := when (fun s => negb (req_sent s)) upreq_reset_stream ;; clean_up.
 
 Definition down_append_headers (e : bool) (r : resp) : A :=
@@ -554,12 +566,12 @@ Definition env_step (e : ev) (s : st) : st * list out :=
                <| notify := true |>, [])
     else (s, [])
   | EvUpReset k why =>
-    if (k =? cur s)%nat && up_sender s && up_alive s then on_up_reset why (s <| up_alive := false |>) else (s, [])
+    if (k =? cur s)%nat && up_sender s && up_alive s then on_up_reset why (s <| up_alive := false |> <| abandoned := true |>) else (s, [])
   | EvPerTry k =>
     match try_armed s with
     | Some k' =>
       if (k =? k')%nat then
-        let s1 := s <| try_armed := None |> in
+        let s1 := s <| try_armed := None |> <| reuse := false |> in
         if cleaned s1 then (s1, [])
         else if received s1 then (s1, [])
         else
@@ -571,7 +583,7 @@ Definition env_step (e : ev) (s : st) : st * list out :=
     end
   | EvGlobal =>
     if global_armed s then
-      let s1 := s <| global_armed := false |> in
+      let s1 := s <| global_armed := false |> <| reuse := false |> in
       if cleaned s1 then (s1, [])
       else if received s1 then (s1, [])
       else
@@ -581,12 +593,13 @@ Definition env_step (e : ev) (s : st) : st * list out :=
     else (s, [])
   | EvDownReset why => on_down_reset why s
   | EvTerminate code =>
+    let s := s <| reuse := false |> in      (* TerminateStream clears reuseBuffer before any check *)
     match rsp s with
     | Some _ => (s, [])
     | None =>
       if cleaned s then (s, [])
       else if received s then (s, [])
-      else (upd (fun s => s <| received := true |> <| try_armed := None |> <| global_armed := false |>) ;;
+      else (upd (fun s => s <| received := true |> <| try_armed := None |> <| global_armed := false |> <| reuse := false |>) ;;
             hijack code false ;; upd (fun s => s <| notify := true |>)) s
     end
   | EvWake => if sleeping s then (s <| sleeping := false |> <| woken := true |>, []) else (s, [])
